@@ -58,6 +58,22 @@ def calib(cell):
             if abs(got - exp) > 1e-12 * v0 + 1e-9 * abs(exp - v0):
                 out.append({'msg': f'modifier {mod}: v({q} C) = {got!r}, line gives {exp!r} (v0={v0} at {t0c} C)', 'key': None})
                 break
+    # bare numbers are temperatures in the preferred unit (deg F by default) - zero included
+    a_b = pb.Ammo(dm, FPS(v0), U(t0u)(t0), temp_modifier=0.015, use_powder_sensitivity=True)
+    for b in (0, 0.0, 59, -40, 100):
+        n += 1
+        got, exp = a_b.get_velocity_for_temp(b) >> FPS, a_b.get_velocity_for_temp(pb.Unit.Fahrenheit(b)) >> FPS
+        if got != exp:
+            out.append({'msg': f'v(bare {b!r}) = {got!r} but v(Fahrenheit({b})) = {exp!r}: a bare number is that number in the preferred unit', 'key': None})
+            break
+    a_c = pb.Ammo(dm, FPS(v0), U(t0u)(t0), use_powder_sensitivity=True)
+    a_d = pb.Ammo(dm, FPS(v0), U(t0u)(t0), use_powder_sensitivity=True)
+    if abs(t0c - (pb.Unit.Fahrenheit(0) >> C)) > 1:
+        n += 1
+        if a_c.calc_powder_sens(FPS(v0 - 30), 0) != a_d.calc_powder_sens(FPS(v0 - 30), pb.Unit.Fahrenheit(0)):
+            out.append({'msg': 'calc_powder_sens with bare temperature 0 differs from Fahrenheit(0)', 'key': None})
+        elif abs((a_c.get_velocity_for_temp(0) >> FPS) - (v0 - 30)) > 1e-9 * v0:
+            out.append({'msg': f'calibrated with (v0-30 fps, bare 0): v(bare 0) = {a_c.get_velocity_for_temp(0) >> FPS!r}, second measurement {v0 - 30}', 'key': None})
     # calibrated from a second measurement
     a = pb.Ammo(dm, FPS(v0), U(t0u)(t0), use_powder_sensitivity=True)
     m = a.calc_powder_sens(FPS(v0 + dv), temp(t1c))
